@@ -32,8 +32,8 @@
                         (the assembly is left half-updated: `broken`, no further call is modelled).
                         Afterwards spatialGrid._bounds[2] := <<0>> \o tops.
 
-   NUMBERS  exact rationals <<n,d>> (spec/common/RationalX.tla: Rational.tla with cancellation before multiplication).  `lin` = (number density x cross-section area) of a
-   component relative to its initial value, i.e. mass per unit height: the radial part of a temperature change
+   NUMBERS  exact rationals <<n,d>> (spec/common/RationalX.tla = Rational.tla with cancellation before multiplication).
+   `lin` = (number density x cross-section area) of a component relative to its initial value, i.e. mass per unit height: the radial part of a temperature change
    (Component.setTemperature) leaves it unchanged, the axial step divides it by g.  mass(c) = lin(c) * height(block of c)
    (Component.getVolume = area * parent.getHeight()).  Temperatures are levels tau = (Tc - 25)/500; the two solid
    materials of the model have L_A = 1 + tau/10, L_B = 1 + tau/20 (the adapter supplies materials with exactly
@@ -62,6 +62,17 @@
    conservation and stacking clauses cannot all hold when the solids of a block grow by different fractions.
    Refusals: RefusalsChangeNothing (RuntimeError refusals leave elevations, densities, temperatures and bounds as
    they were; the persisted target names may be filled in).
+
+   NOT MODELLED  AxialExpansionChanger.expandColdDimsToHot / applyColdHeightMassIncrease / manageCoreMesh (core
+   construction and core-wide mesh), assemblies without a top dummy block (the top block is then chopped; refused with
+   detailedAxialExpansion), explicit targets naming a fluid or missing component, radial dimensions (C03).
+
+   CONFIGURATIONS (AxialExpansion_mc.tla holds the design sets)
+     _mc / _mc_thorough      exhaustive, all invariants above           _deep / _deep_thorough   3..4 calls, growth by powers of 2
+     _lit_<Clause>           one literal clause each (refuted)          _whatif_*                the two what-if variants
+     _emit / _emit_thorough  every distinct state printed as (design, calls, observation) for the replay on armi
+     _cases / _cases_thorough  one call on every 1-/2-block stack of the block catalogue: target choice, links, refusals
+     _trace                  batch validation of histories recorded from armi
 *)
 EXTENDS RationalX, TLC, Json
 
